@@ -144,7 +144,13 @@ def check_case(case, info=None):
         def fresh():
             return [[ScoredTree(tr, -0.5 * (k + 1)) for k, tr in enumerate(gen_tree.sentence_trees(sent))]
                     for sent in case['batch']]
+        # one set of result objects is used for every rendering of the case, the way a caller prints one parse result
+        # in several formats (Jigg XML first)
         batch = fresh()
+
+        def fresh():        # noqa: F811
+            return batch
+        to_jigg_xml(batch)
         flat = [(i, j, st.tree) for i, sent in enumerate(batch, 1) for j, st in enumerate(sent, 1)]
         derivs = [gen_tree.deriv_from_json(tc['deriv']) for sent in case['batch'] for tc in sent]
         mod = en if system == 'en' else ja
@@ -336,7 +342,7 @@ def _shard(ctx, shard, nshards):
 
     def factory():
         @seed(runner.hseed(ctx, 15))
-        @runner.hsettings(ctx.scale(600, 3000))
+        @runner.hsettings(ctx.scale(600, 10000))
         @given(tapes(1800))
         def test(data):
             case = build_case(data)
@@ -360,4 +366,4 @@ def run(ctx):
         'normalize_tokens and up to the XML the printer hands to ccg2lambda.parse (captured by substituting that function)',
         '"logic punctuation" = the characters the normaliser documents (. , ( ) ! - and a bare &); tokens that already '
         'start with an underscore are treated by the normaliser as normalised and are not judged',
-        'batches are rebuilt for every rendering so that C18\'s concern (printing changes the tokens) does not interfere']
+        'one set of result objects is rendered in all formats of a case (Jigg XML first), as a caller would']
